@@ -74,7 +74,7 @@ def _make_disciplines(cfg, counter):
 
         def _tick(self, kind, data):
             counter.k += 1
-            counter.calls.append((counter.k, self.name, kind, tuple(float(t) for t in data["x"])))
+            counter.calls.append((counter.k, self.name, kind, tuple(float(t.real) for t in data["x"])))
             if counter.hook is not None:
                 counter.hook(counter.k)
 
@@ -131,8 +131,8 @@ def _make_disciplines(cfg, counter):
 
         def compute(self, d):
             x = d["x"]
-            s = float(x @ x)
-            return {"f": array([(x[0] - 1) ** 2 + (1 + v) * (s - x[0] ** 2) + 0.5 * x[0]]), G: array([float(x.sum()) - 1.0])}
+            s = x @ x  # (complex-safe: complex-step differentiation perturbs x along the imaginary axis)
+            return {"f": array([(x[0] - 1) ** 2 + (1 + v) * (s - x[0] ** 2) + 0.5 * x[0]]), G: array([x.sum() - 1.0])}
 
         def partials(self, d):
             x = d["x"]
@@ -205,6 +205,10 @@ def build(cfg, path, counter, load):
         sc.add_constraint(cfg.get("gname", "g"), constraint_type="ineq")
     if cfg.get("observable") and cfg["formulation"] == "IDF":
         sc.add_observable("o")
+    if cfg.get("complex_step"):
+        # derivatives by complex step: the design space becomes complex and the database holds the initial point under a
+        # complex key next to the float keys of the optimiser's points
+        sc.set_differentiation_method("complex_step", 1e-30)
     sc.set_optimization_history_backup(
         path, at_each_iteration=cfg["each_iter"], at_each_function_call=cfg["each_call"], load=load
     )
@@ -232,12 +236,22 @@ def algo_settings(cfg, restart=False):
 
 
 def _norm(v):
-    return canon(array(v))
+    a = array(v)
+    if a.dtype.kind == "c" and not a.imag.any():
+        a = a.real  # (the history file keeps the real part of the values, by design)
+    return canon(a)
+
+
+def _key(arr):
+    """Database key as a tuple; points of complex dtype (complex-step differentiation) are other entries than the
+    float points holding the same numbers."""
+    t_ = tuple(arr.tolist())
+    return ("complex", *t_) if arr.dtype.kind == "c" else t_
 
 
 def dump_db(db):
     return [
-        (tuple(x.wrapped_array.tolist()), tuple((k, _norm(v)) for k, v in sorted(o.items())))
+        (_key(x.wrapped_array), tuple((k, _norm(v)) for k, v in sorted(o.items())))
         for x, o in db.items()
     ]
 
@@ -272,7 +286,7 @@ class Recorder:
             if self_db is rec.db:
                 hx = self_db.get_hashable_ndarray(x_vect)
                 was_empty = not self_db.get(hx)
-                rec.events.append((tuple(hx.wrapped_array.tolist()), {k: _norm(v) for k, v in outputs.items()}))
+                rec.events.append((_key(hx.wrapped_array), {k: _norm(v) for k, v in outputs.items()}))
                 if was_empty and outputs:
                     rec.new_entry_marks.append(len(rec.events))
             return rec._orig(self_db, x_vect, outputs)
@@ -387,6 +401,7 @@ def draw_config(t):
         cfg["max_iter"] = t.randint(3, 12, "max_iter")
         cfg["normalize"] = t.flag(0.4, "normalize")
         cfg["keep_counter_on_restart"] = t.flag(0.5, "keep_counter_on_restart")
+        cfg["complex_step"] = formulation == "DisciplinaryOpt" and cfg["algo"] in ("SLSQP", "L-BFGS-B", "NLOPT_SLSQP") and t.flag(0.35, "complex_step")
     else:
         cfg["algo"] = t.pick(DOE_ALGOS, "algo")
         cfg["constrained"] = t.flag(0.5, "constrained")
